@@ -5,6 +5,7 @@ import (
 	"encoding/binary"
 	"errors"
 	"fmt"
+	"maps"
 	"sort"
 
 	"github.com/smartcontractkit/libocr/offchainreporting2/types"
@@ -87,7 +88,9 @@ func (p *Plugin) outcome(outctx ocr3types.OutcomeContext, query types.Query, aos
 	/////////////////////////////////
 	// outcome.ChannelDefinitions
 	/////////////////////////////////
-	outcome.ChannelDefinitions = previousOutcome.ChannelDefinitions
+	// copy, so that previousOutcome keeps its own definitions (it is consulted
+	// below via previousOutcome.IsReportable)
+	outcome.ChannelDefinitions = maps.Clone(previousOutcome.ChannelDefinitions)
 	if outcome.ChannelDefinitions == nil {
 		outcome.ChannelDefinitions = llotypes.ChannelDefinitions{}
 	}
